@@ -76,9 +76,15 @@ def pmap(ctx, fn, items, procs=None, chunk=None):
         return
     chunk = chunk or max(1, len(items) // (procs * 4))
     chunks = [items[i:i + chunk] for i in range(0, len(items), chunk)]
+    from .tlc import MachineryError
     with mp.get_context("fork").Pool(procs) as pool:
-        for status, res in pool.imap_unordered(_work, chunks):
+        it = pool.imap_unordered(_work, chunks)
+        for _ in range(len(chunks)):
+            try:
+                status, res = it.next(timeout=float(os.environ.get("VERIF_CHUNK_TIMEOUT", "900")))
+            except mp.TimeoutError:
+                pool.terminate()
+                raise MachineryError("a replay worker died or hung (no result within the chunk time-out)")
             if status == "error":
-                from .tlc import MachineryError
                 raise MachineryError("replay worker crashed:\n" + res)
             merge(ctx, res)
